@@ -247,6 +247,12 @@ class SetEncoder(encoder.SequenceEncoder):
                     # accepts may spell the default (octets for a text string)
                     component = defaultValue.clone(component)
 
+                elif (namedType.isDefaulted and
+                        not isinstance(component, base.Asn1Item)):
+                    # a constructed default given as a Python value
+                    if self._isDefaultPy(component, defaultValue):
+                        continue
+
                 if namedType.isDefaulted and self._isDefault(component, namedType):
                     continue
 
